@@ -115,16 +115,32 @@ def as_seq_term(eng, v, ty):
 
 
 def binop_add(eng, a, b, node):
+    if isinstance(a, OptV) or isinstance(b, OptV):
+        un = []
+        for x in (a, b):
+            if isinstance(x, OptV):
+                if not eng.spec_mode:
+                    eng.safety("add-with-None", x.some, node)
+                x = x.val
+            un.append(x)
+        a, b = un
     if isinstance(a, Conc) and isinstance(b, Conc):
         return Conc(a.v + b.v)
     ta = a.ty if isinstance(a, P) else None
     tb = b.ty if isinstance(b, P) else None
     # list concatenation
     ca, cb = cell(eng, a), cell(eng, b)
-    if isinstance(ca, ListV) or isinstance(cb, ListV):
+    if (isinstance(ca, ListV) or isinstance(cb, ListV)) and not (isinstance(ca, P) or isinstance(cb, P)):
         la = ca.items if isinstance(ca, ListV) else [Conc(x) for x in ca.v]
         lb = cb.items if isinstance(cb, ListV) else [Conc(x) for x in cb.v]
         return make_list(eng, la + lb)
+    if (isinstance(a, Ref) and a.ty.kind == "list") or (isinstance(b, Ref) and b.ty.kind == "list"):
+        sa, sb = seq_of(eng, a), seq_of(eng, b)
+        if sa is None:
+            return b
+        if sb is None:
+            return a
+        return alloc(eng, Ty("list", sa.ty.args[0]), P(sa.ty, z3.Concat(sa.term, sb.term)), "cell.cat")
     if ta == INT or tb == INT or (ta is None and tb is None and not isinstance(a, StrOfInt) and not isinstance(b, StrOfInt)
                                   and isinstance(getattr(a, "v", 0), int) and isinstance(getattr(b, "v", 0), int)):
         return P(INT, eng.term(a, INT) + eng.term(b, INT))
